@@ -2641,8 +2641,8 @@ func (r *repoT) GobDecode(b []byte) error {
 }
 
 func (r *repoT) GobEncode() ([]byte, error) {
-	r.RLock()
-	r.RUnlock()
+	// The only caller, saveToStore, already holds the repo read lock.  Taking it again here
+	// deadlocks the repo when a writer queues up between the two read locks.
 
 	var buf bytes.Buffer
 	enc := gob.NewEncoder(&buf)
